@@ -23,6 +23,8 @@ import (
 	"hash/fnv"
 	"math/big"
 	"os"
+	"os/exec"
+	"path/filepath"
 	"regexp"
 	"sort"
 	"strings"
@@ -222,6 +224,7 @@ func (h *hashTable) learn(e string, c int, p int, text string) {
 	h.byEC[ec], h.byText[text] = text, ec
 }
 
+var rxPlanLine = regexp.MustCompile(`Entity '([a-z]+)' will be (?:created|overwritten)`)
 var rxContent = regexp.MustCompile(`CN=[a-z]+ v([0-9]+)`)
 
 func dnContent(raw []byte) (int, bool) {
@@ -534,16 +537,18 @@ func cutOffset(content []byte, class string, rng *util.Rng) int {
 }
 
 type repoExec struct {
-	shape   string
-	l       repoLayout
-	ht      *hashTable
-	rng     *util.Rng
-	out     *util.NdjsonWriter
-	id      int
-	runs    int
-	faults  int
-	panics  int
-	actions map[string]int
+	nativeBin string // when set, runs are done by this gopki binary on a native scratch directory (nativeDir)
+	nativeDir string
+	shape     string
+	l         repoLayout
+	ht        *hashTable
+	rng       *util.Rng
+	out       *util.NdjsonWriter
+	id        int
+	runs      int
+	faults    int
+	panics    int
+	actions   map[string]int
 }
 
 func (x *repoExec) aliasToEnt(a string) string { return a } // aliases are the file base names = entity names
@@ -678,7 +683,12 @@ func (x *repoExec) perform(w *repoWorld, pre *absState, preFacts map[string]*art
 				return n
 			}}
 		}
-		r := signRun(nw.fs, flagsToStrat(a.Fl), x.aliasToEnt)
+		var r runResult
+		if x.nativeBin != "" {
+			r = x.nativeRun(nw.fs, a.Fl)
+		} else {
+			r = signRun(nw.fs, flagsToStrat(a.Fl), x.aliasToEnt)
+		}
 		obs.Result, obs.Err, obs.Generated = r.Result, r.Err, r.Generated
 		if r.Result == "panic" {
 			x.panics++
@@ -722,7 +732,12 @@ func (x *repoExec) perform(w *repoWorld, pre *absState, preFacts map[string]*art
 			if !hasAll {
 				fs2 := nw.fs.Clone()
 				fs2.ResetLog()
-				r2 := signRun(fs2, flagsToStrat(a.Fl), x.aliasToEnt)
+				var r2 runResult
+				if x.nativeBin != "" {
+					r2 = x.nativeRun(fs2, a.Fl)
+				} else {
+					r2 = signRun(fs2, flagsToStrat(a.Fl), x.aliasToEnt)
+				}
 				ch, oth := snapshotDiff(x.l, nw.fs, fs2)
 				obs.Rerun = &repoRerun{Result: r2.Result, Plan: r2.Plan, Changed: append(ch, oth...)}
 				if obs.Rerun.Plan == nil {
@@ -851,6 +866,8 @@ func cmdRepo(args []string) int {
 	out := fs.String("out", "trace.ndjson", "")
 	statsOut := fs.String("stats", "stats.json", "")
 	statesOut := fs.String("states", "", "write the set of visited abstract states (shard 0 only)")
+	nativeBin := fs.String("native-bin", "", "run `sign` with this gopki binary on a native scratch directory instead of in-process")
+	nativeDir := fs.String("native-dir", "", "scratch directory for -native-bin")
 	randomWalks := fs.Int("random", 0, "instead of exhaustive exploration: number of random histories")
 	walkLen := fs.Int("walk-len", 10, "length of a random history")
 	fs.Parse(args)
@@ -861,7 +878,7 @@ func cmdRepo(args []string) int {
 		return 2
 	}
 	x := &repoExec{shape: *shape, l: l, ht: &hashTable{byText: map[string]string{}, byEC: map[string]string{}},
-		rng: util.NewRng(*seed), out: w, actions: map[string]int{}}
+		rng: util.NewRng(*seed), out: w, actions: map[string]int{}, nativeBin: *nativeBin, nativeDir: *nativeDir}
 	enabled := map[string]bool{}
 	for _, n := range strings.Split(*envList, ",") {
 		enabled[n] = true
@@ -1056,4 +1073,121 @@ func expiredTwin(own, issuerFile []byte) []byte {
 		pem.Encode(&bb, &pem.Block{Type: "CERTIFICATE REQUEST", Bytes: p.Csr})
 	}
 	return bb.Bytes()
+}
+
+// nativeRun: the directory is written to a native scratch directory (modification times from the logical clock,
+// i.e. in the past), the gopki BINARY runs `sign` on it with the answer `y`, and whatever it changed is read back
+// (new logical ticks in the order of the native modification times). The plan is read off the changed artifacts in
+// the order they were written.
+func (x *repoExec) nativeRun(fsys *simfs.FS, fl []string) runResult {
+	os.RemoveAll(x.nativeDir)
+	type st struct {
+		data []byte
+		mt   int64
+	}
+	for name, f := range fsys.Files {
+		p := filepath.Join(x.nativeDir, filepath.FromSlash(name))
+		os.MkdirAll(filepath.Dir(p), 0755)
+		os.WriteFile(p, f.Data, 0644)
+		t := simfs.Epoch.Add(time.Duration(f.MTick) * time.Second)
+		os.Chtimes(p, t, t)
+	}
+	args := []string{"-v", "sign"} // verbose: the plan is logged entity by entity, in plan order
+	on := map[string]bool{}
+	for _, f := range fl {
+		on[f] = true
+	}
+	args = append(args, fmt.Sprintf("-m=%v", on["m"]), fmt.Sprintf("-c=%v", on["c"]))
+	for _, f := range []string{"e", "o", "a"} {
+		if on[f] {
+			args = append(args, "-"+f)
+		}
+	}
+	args = append(args, x.nativeDir)
+	cmd := exec.Command(x.nativeBin, args...)
+	cmd.Stdin = strings.NewReader("y\n")
+	cmd.Env = append(os.Environ(), "TZ=UTC")
+	out, err := cmd.CombinedOutput()
+	res := runResult{Result: "ok", Plan: []string{}, Changes: []string{}}
+	if err != nil {
+		res.Result, res.Err = "failed", string(out)
+		if len(res.Err) > 300 {
+			res.Err = res.Err[len(res.Err)-300:]
+		}
+	}
+	// read back
+	type ch struct {
+		name string
+		mt   int64
+		data []byte
+	}
+	var changed []ch
+	seen := map[string]bool{}
+	filepath.Walk(x.nativeDir, func(p string, info os.FileInfo, err error) error {
+		if err != nil || info.IsDir() {
+			return nil
+		}
+		rel, _ := filepath.Rel(x.nativeDir, p)
+		rel = filepath.ToSlash(rel)
+		seen[rel] = true
+		data, _ := os.ReadFile(p)
+		old, ok := fsys.Files[rel]
+		want := simfs.Epoch.Add(time.Duration(0) * time.Second)
+		if ok {
+			want = simfs.Epoch.Add(time.Duration(old.MTick) * time.Second)
+		}
+		if !ok || !bytes.Equal(old.Data, data) || !info.ModTime().Equal(want) {
+			changed = append(changed, ch{rel, info.ModTime().UnixNano(), data})
+		}
+		return nil
+	})
+	for name := range fsys.Files {
+		if !seen[name] {
+			fsys.Remove(name)
+		}
+	}
+	// the order of the writes is the order of the plan, which the verbose log states ("Entity 'x' will be created |
+	// overwritten"); native modification times are too coarse to tell two writes of one run apart
+	planPos := map[string]int{}
+	for i, m := range rxPlanLine.FindAllStringSubmatch(string(out), -1) {
+		if _, dup := planPos[m[1]]; !dup {
+			planPos[m[1]] = i
+		}
+	}
+	artOf := map[string]string{}
+	for _, e := range x.l.Ents {
+		artOf[x.l.artPath(e)] = e
+	}
+	pos := func(c ch) int {
+		if e, ok := artOf[c.name]; ok {
+			if p, ok := planPos[e]; ok {
+				return p
+			}
+		}
+		return 1 << 20
+	}
+	sort.SliceStable(changed, func(i, j int) bool {
+		if pos(changed[i]) != pos(changed[j]) {
+			return pos(changed[i]) < pos(changed[j])
+		}
+		return changed[i].mt < changed[j].mt
+	})
+	for _, c := range changed {
+		hadCert := false
+		if old, ok := fsys.Files[c.name]; ok {
+			hadCert = project.ParsePem(old.Data).Cert != nil
+		}
+		fsys.Put(c.name, c.data)
+		if e, ok := artOf[c.name]; ok {
+			res.Plan = append(res.Plan, e)
+			if hadCert {
+				res.Changes = append(res.Changes, "replace")
+			} else {
+				res.Changes = append(res.Changes, "create")
+			}
+		}
+	}
+	res.Generated = len(res.Plan)
+	os.RemoveAll(x.nativeDir)
+	return res
 }
